@@ -1,0 +1,28 @@
+//go:build verif
+
+package oracle
+
+import (
+	"sync"
+
+	"github.com/ExocoreNetwork/exocore/x/oracle/keeper"
+	"github.com/ExocoreNetwork/exocore/x/oracle/keeper/common"
+	"github.com/ExocoreNetwork/exocore/x/oracle/types"
+)
+
+// VerifResetProcessState puts the package-level oracle state (lazy-init guard, aggregator
+// contexts, caches, cached common params) back to what a freshly started process has, so
+// that a test harness can model a node restart, or run several independent chains one
+// after the other, inside one OS process. Only compiled with the `verif` build tag.
+func VerifResetProcessState() {
+	once = sync.Once{}
+	keeper.ResetAggregatorContext()
+	keeper.ResetAggregatorContextCheckTx()
+	keeper.ResetCache()
+	keeper.ResetUpdatedFeederIDs()
+	common.MaxNonce = 3
+	common.ThresholdA = 2
+	common.ThresholdB = 3
+	common.MaxDetID = 5
+	common.Mode = types.ConsensusModeASAP
+}
